@@ -174,7 +174,7 @@ def run(ctx):
                               found_input=False) if ok else None
                 continue
         numeric_bijection(ctx, 'AutoregressiveLayer', randomize(layer, rs), (n,), rs, rep)
-        if ctx.n_new() >= 3:
+        if ctx.n_new(with_input_only=True) >= 3:
             return
     # squeeze / unsqueeze
     for (c, h, w) in [(1, 2, 2), (1, 2, 4), (2, 4, 2), (3, 4, 4), (1, 6, 8), (2, 2, 6), (2, 8, 8), (5, 2, 2)] + \
@@ -241,7 +241,7 @@ def run(ctx):
         ctx.case('layer', nontrivial_key=json.dumps(rep, sort_keys=True), sample=rep)
         ctx.count('layer:' + rep['layer'] + (':channelwise' if rep.get('channelwise') else ''))
         numeric_bijection(ctx, rep['layer'], randomize(obj, rs), shape, rs, rep)
-        if ctx.n_new() >= 3:
+        if ctx.n_new(with_input_only=True) >= 3:
             return
     from deeprob.flows.utils import BatchNormLayer1d, BatchNormLayer2d
     for k in range(10 if quick else 80):
@@ -255,7 +255,7 @@ def run(ctx):
         ctx.case('layer', nontrivial_key=json.dumps(rep, sort_keys=True), sample=rep)
         ctx.count('layer:' + rep['layer'] + (':non-square' if len(shape) == 3 and shape[1] != shape[2] else ''))
         numeric_bijection(ctx, rep['layer'], randomize(obj, rs), shape, rs, rep)
-        if ctx.n_new() >= 3:
+        if ctx.n_new(with_input_only=True) >= 3:
             return
     n_models = 18 if quick else 200
     for k in range(n_models):
@@ -314,7 +314,7 @@ def run(ctx):
                 ctx.count('configuration-not-runnable')      # image side not divisible by the model's scales: not an accepted configuration
             else:
                 raise
-        if ctx.n_new() >= 3:
+        if ctx.n_new(with_input_only=True) >= 3:
             return
 
 
